@@ -138,7 +138,7 @@ def finish(rep, level=None, engine=None, extra_cov=None):
     code = 0
     seen = set()
     for clause, detail, rec, err in rep.violations:
-        path = write_replay(pid, clause, detail, rec, err, ['record', 'revalidate'] if clause.startswith('C13.trace') else ['density', 'revalidate'] if clause.startswith('C06.d') else engine)
+        path = write_replay(pid, clause, detail, rec, err, ['record', 'revalidate'] if clause.startswith('C13.trace') else ['gentrace', 'revalidate'] if clause.startswith('C13.g') else ['density', 'revalidate'] if clause.startswith('C06.d') else engine)
         key = clause.split(':')[0]
         if (key, path) in seen: continue
         seen.add((key, path))
